@@ -208,6 +208,60 @@ void h_script_vnacal(void)
 #endif
 
 
+#ifdef S_REFUSALS
+/*
+ * C11 / C03: every documented refusal of vnacal_make_correlated_parameter
+ * (no allocation fault involved) returns -1 with one USAGE report, leaves the
+ * parameter table as it was and leaks nothing - including the private copies
+ * made before the last validation.
+ */
+#ifndef REFUSE_CASE
+#define REFUSE_CASE 0
+#endif
+void h_correlated_refused(void)
+{
+    double fv[2] = { 1.0e9, 2.0e9 };
+    double bad_fv[2] = { 2.0e9, 1.0e9 };
+    double neg_fv[2] = { -1.0, 1.0e9 };
+    double sv[2] = { 0.1, 0.2 };
+    double bad_sv[2] = { 0.1, -0.2 };
+    vnacal_t *vcp;
+    int p_scalar, count0, rc = 0;
+
+    ghost_err_reset();
+    vcp = vnacal_create(verif_error_fn, NULL);
+    ASSUME(vcp != NULL);
+    p_scalar = vnacal_make_scalar_parameter(vcp, 0.5);
+    ASSUME(p_scalar == 3);
+    count0 = vcp->vc_parameter_collection.vprmc_count;
+    CHECK(ghost_err_calls == 0, "set-up is silent");
+#if REFUSE_CASE == 0		/* a sigma value that is not positive (after the frequency copy was made) */
+    rc = vnacal_make_correlated_parameter(vcp, p_scalar, fv, 2, bad_sv);
+#elif REFUSE_CASE == 1		/* frequencies not ascending */
+    rc = vnacal_make_correlated_parameter(vcp, p_scalar, bad_fv, 2, sv);
+#elif REFUSE_CASE == 2		/* negative frequency */
+    rc = vnacal_make_correlated_parameter(vcp, p_scalar, neg_fv, 2, sv);
+#elif REFUSE_CASE == 3		/* invalid handle of the initial guess */
+    rc = vnacal_make_correlated_parameter(vcp, 9, fv, 2, sv);
+#elif REFUSE_CASE == 4		/* no sigma point */
+    rc = vnacal_make_correlated_parameter(vcp, p_scalar, fv, 0, sv);
+#elif REFUSE_CASE == 5		/* NULL sigma vector */
+    rc = vnacal_make_correlated_parameter(vcp, p_scalar, fv, 2, NULL);
+#elif REFUSE_CASE == 6		/* NULL frequencies with a scalar guess and two points */
+    rc = vnacal_make_correlated_parameter(vcp, p_scalar, NULL, 2, sv);
+#endif
+    (void)bad_fv; (void)neg_fv; (void)bad_sv; (void)sv; (void)fv;
+    REACH("refused make_correlated returned");
+    CHECK(rc == -1, "the invalid request is refused");
+    CHECK(ghost_err_calls == 1 && ghost_err_category == VNAERR_USAGE && errno == EINVAL,
+	    "reported once as a usage error (EINVAL)");
+    CHECK(wf_params(vcp, ext0) && vcp->vc_parameter_collection.vprmc_count == count0,
+	    "the parameter table is as it was");
+    vnacal_free(vcp);
+    /* --memory-leak-check: nothing the refused call allocated survives */
+}
+#endif
+
 #ifdef S_VNACAL_NEW
 /* script: vnacal_new_alloc and one added standard, each retried after a fault */
 int vnaproperty_delete(vnaproperty_t **rootptr, const char *format, ...)
